@@ -60,6 +60,53 @@ func hostileProg(r interface{ Intn(int) int }, u *gen.Uid, guard bool) *ref.Prog
 	return p
 }
 
+// inPlace renders a program as a native action that works directly on the
+// bindings it is given (core's Bindings.Remove / Extend / DeleteExcept do) and
+// returns that same map.
+func inPlace(p *ref.Prog) core.Action {
+	return &core.FuncAction{F: func(ctx context.Context, bs match.Bindings, props core.StepProps) (*core.Execution, error) {
+		if bs == nil {
+			bs = match.NewBindings()
+		}
+		for _, op := range p.Ops {
+			switch op.Op {
+			case "del":
+				bs.Remove(op.K)
+			case "set":
+				bs.Extend(op.K, fw.Plain(op.V))
+			case "keep":
+				bs.DeleteExcept(op.Ks...)
+			case "copy":
+				if v, have := bs[op.K]; have {
+					bs[op.K2] = v
+				}
+			case "push":
+				if a, ok := bs[op.K].([]interface{}); ok {
+					bs[op.K] = append(a, op.V)
+				} else if _, have := bs[op.K]; !have {
+					bs[op.K] = []interface{}{op.V}
+				}
+			case "fail":
+				return nil, fmt.Errorf("%v", op.V)
+			}
+		}
+		switch p.Ret {
+		case "same":
+			return core.NewExecution(bs), nil
+		case "fresh":
+			return core.NewExecution(match.Bindings(fw.Plain(p.Fresh).(map[string]interface{}))), nil
+		case "null":
+			return core.NewExecution(nil), nil
+		case "cond":
+			if _, have := bs[p.CondKey]; have {
+				return core.NewExecution(bs), nil
+			}
+			return core.NewExecution(nil), nil
+		}
+		return nil, fmt.Errorf("isn't Bindings")
+	}}
+}
+
 func genState(r interface{ Intn(int) int }) map[string]interface{} {
 	bs := map[string]interface{}{}
 	vals := []interface{}{"keep", 1.0, map[string]interface{}{"nested": []interface{}{1.0, map[string]interface{}{"x": "y"}}}, []interface{}{"a", "b"}, nil, false}
@@ -115,8 +162,8 @@ func checkStride(rec *fw.Rec, a *ref.ASpec, from, to *core.State, replay interfa
 }
 
 func Run(cfg fw.Config, rec *fw.Rec) {
-	rec.Rule = "two-node machines whose action and guards are hostile programs over the permanent keys (delete, overwrite, keep-only, copy-over, push, return {} / a fresh object / null / a number, fail, reject) run from states with 0-3 permanent bindings (scalar, nested, array, null, false values) and 0-3 ordinary ones, native (two failure modes) and ECMAScript; plus random multi-node machines; for every stride the permanent bindings present before must be present and equal after, unless the node's action returned null (recorded, not judged); non-trivial = stride checked with >= 1 permanent binding; distinct by canonical (spec,state)"
-	rec.Required = []string{"strides_with_permanent_checked", "after_failing_action", "after_completed_action", "guard_rejected_then_next_branch", "guard_accepted", "render_ecma", "render_native", "structured_permanent_value", "unjudged_action_returned_null"}
+	rec.Rule = "two-node machines whose action and guards are hostile programs over the permanent keys (delete, overwrite, keep-only, copy-over, push, return {} / a fresh object / null / a number, fail, reject) run from states with 0-3 permanent bindings (scalar, nested, array, null, false values) and 0-3 ordinary ones, native (two failure modes; and a variant that mutates the bindings it is given in place, as core's Bindings.Remove / Extend / DeleteExcept do) and ECMAScript; plus random multi-node machines; for every stride the permanent bindings present before must be present and equal after, unless the node's action returned null (recorded, not judged); non-trivial = stride checked with >= 1 permanent binding; distinct by canonical (spec,state)"
+	rec.Required = []string{"strides_with_permanent_checked", "after_failing_action", "after_completed_action", "guard_rejected_then_next_branch", "guard_accepted", "render_ecma", "render_native", "render_native-inplace", "structured_permanent_value", "unjudged_action_returned_null"}
 	n := cfg.Pick(60000, 800000)
 	fw.Parallel(cfg.Workers, n, func(w, i int) {
 		r := cfg.Rng("c18", i)
@@ -154,9 +201,27 @@ func Run(cfg fw.Config, rec *fw.Rec) {
 		if i%10 == 0 {
 			render = "ecma"
 		}
-		spec, err := a.Compiled(render == "native", mode)
+		if i%4 != 3 && i%10 != 0 && i%3 == 1 {
+			render = "native-inplace"
+		}
+		spec, err := a.Compiled(render != "ecma", mode)
 		if err != nil {
 			return
+		}
+		if render == "native-inplace" {
+			// the same programs, but mutating the bindings they are given
+			for name, n := range a.Nodes {
+				if n.Action != nil {
+					spec.Nodes[name].Action = inPlace(n.Action)
+				}
+				if n.Branching != nil {
+					for bi, b := range n.Branching.Branches {
+						if b.Guard != nil {
+							spec.Nodes[name].Branches.Branches[bi].Guard = inPlace(b.Guard)
+						}
+					}
+				}
+			}
 		}
 		bs := genState(r)
 		for _, k := range permKeys {
@@ -189,7 +254,7 @@ func Run(cfg fw.Config, rec *fw.Rec) {
 			}
 			// which guards ran? derive from the reference step
 			if n, have := a.Nodes[s.From.NodeName]; have && n.Branching != nil && i%4 != 3 && len(n.Branching.Branches) > 0 {
-				env := ref.Env{Native: render == "native", NativeMode: mode}
+				env := ref.Env{Native: render != "ecma", NativeMode: mode}
 				full := ref.Step(a, *ref.ToAState(s.From), nil, env)
 				if len(full) == 1 && full[0].Note == "guarded branch taken" {
 					rec.Bucket("guard_accepted")
